@@ -41,8 +41,9 @@ SplitBufsThorough == <<1, 2, 3, 4, 5, 6, 7, 8, 9, 1000, None>>
 
 VARIABLES cfg, drv, N, src,
           s, k, outs, h, since,        \* fill/request driver
-          pos, rel, out, phase         \* run driver
-vars == <<cfg, drv, N, src, s, k, outs, h, since, pos, rel, out, phase>>
+          pos, rel, out, phase,        \* run driver
+          act                          \* name of the action taken last (vacuity census)
+vars == <<cfg, drv, N, src, s, k, outs, h, since, pos, rel, out, phase, act>>
 
 Cfgs == {[n |-> n, bufIn |-> b, reset |-> r, yor |-> y, kind |-> kd, m |-> m, pv |-> pv, take |-> tk] :
            n \in 1..MaxBlock, b \in BOOLEAN, r \in BOOLEAN, y \in BOOLEAN,
@@ -57,6 +58,7 @@ Init == /\ drv \in {"free", "run"} /\ cfg \in Cfgs
         /\ N \in (IF drv = "run" THEN 0..MaxLen ELSE {0})
         /\ s = S0 /\ k = 0 /\ outs = <<>> /\ h = <<>> /\ since = 0
         /\ pos = 0 /\ rel = <<>> /\ out = <<>> /\ phase = (IF drv = "run" THEN "loop" ELSE "calls")
+        /\ act = "Init"
 
 (***************************************************************************)
 (* Legacy variant: the code of the pinned tree, line by line.              *)
@@ -99,10 +101,10 @@ FillCall == /\ CanCall
             /\ s' = DoFill(k) /\ k' = k + 1 /\ since' = since + 1
             /\ h' = Append(h, [op |-> "f", res |-> <<>>, nf |-> Len(s'.fills), hung |-> s'.hung])
             /\ UNCHANGED <<cfg, drv, N, src, outs>> /\ RunFixed
-FillPlain == /\ FillKind(cfg, s) = "plain" /\ FillCall
-FillBufferIn == /\ FillKind(cfg, s) = "in" /\ FillCall
-FillBufferOut == /\ FillKind(cfg, s) = "out" /\ FillCall
-Request == /\ CanCall
+FillPlain == /\ FillKind(cfg, s) = "plain" /\ FillCall /\ act' = "FillPlain"
+FillBufferIn == /\ FillKind(cfg, s) = "in" /\ FillCall /\ act' = "FillBufferIn"
+FillBufferOut == /\ FillKind(cfg, s) = "out" /\ FillCall /\ act' = "FillBufferOut"
+Request == /\ act' = "Request" /\ CanCall
            /\ LET r == DoRequest IN
               /\ s' = r.s /\ outs' = outs \o r.res
               /\ h' = Append(h, [op |-> "r", res |-> r.res, nf |-> Len(r.s.fills), hung |-> FALSE])
@@ -114,20 +116,20 @@ Request == /\ CanCall
 (***************************************************************************)
 FreeFixed == UNCHANGED <<s, k, outs, h, since>>
 Blk(a, len) == [j \in 1..len |-> a + j - 1]
-RunBlock == /\ drv = "run" /\ phase = "loop" /\ N - pos >= cfg.n
+RunBlock == /\ act' = "RunBlock" /\ drv = "run" /\ phase = "loop" /\ N - pos >= cfg.n
             /\ LET blk == Taken(cfg, Blk(pos, cfg.n)) IN
                /\ out' = out \o PerValue(cfg, blk) \o Res(cfg, rel \o blk)
                /\ rel' = AfterYield(cfg, rel \o blk)
             /\ pos' = pos + cfg.n
             /\ UNCHANGED <<cfg, drv, N, src, phase>> /\ FreeFixed
-RunRemainder == /\ drv = "run" /\ phase = "loop" /\ pos < N /\ N - pos < cfg.n
+RunRemainder == /\ act' = "RunRemainder" /\ drv = "run" /\ phase = "loop" /\ pos < N /\ N - pos < cfg.n
                 /\ LET blk == Taken(cfg, Blk(pos, N - pos)) IN
                    IF cfg.yor THEN /\ out' = out \o PerValue(cfg, blk) \o Res(cfg, rel \o blk)
                                    /\ rel' = rel \o blk
                    ELSE UNCHANGED <<out, rel>>
                 /\ pos' = N /\ phase' = "done"
                 /\ UNCHANGED <<cfg, drv, N, src>> /\ FreeFixed
-RunEnd == /\ drv = "run" /\ phase = "loop" /\ pos = N /\ phase' = "done"
+RunEnd == /\ act' = "RunEnd" /\ drv = "run" /\ phase = "loop" /\ pos = N /\ phase' = "done"
           /\ UNCHANGED <<cfg, drv, N, src, pos, rel, out>> /\ FreeFixed
 
 Next == FillPlain \/ FillBufferIn \/ FillBufferOut \/ Request \/ RunBlock \/ RunRemainder \/ RunEnd
@@ -190,6 +192,8 @@ SeqEqRun == (RunDone /\ cfg.kind \in {"fc", "fr", "frc"} /\ ~cfg.yor) =>
 (* call; every run with its output and the outputs of the Split and        *)
 (* FillRequestSeq drivers on the same flow.                                *)
 (***************************************************************************)
+\* vacuity census (cheaper than TLC's -coverage): prints the action that led to each state
+Census == PrintT(<<"ACT", act>>)
 SeqCases == [j \in 1..(2 * MaxBlock) |->
                LET n2 == ((j - 1) \div 2) + 1  oy == (j % 2 = 0)
                IN [n2 |-> n2, oyor |-> oy, out |-> FRSeqRun(cfg, Iota(N), n2, oy)]]
